@@ -23,7 +23,7 @@ STATES = {
 }
 
 
-def make_state(kind, dt, m=None, name="q", seed=0, layout="contiguous", scale_like=None):
+def make_state(kind, dt, m=None, name="q", seed=0, layout="contiguous", scale_like=None, override=None):
     """build a quantized tensor directly from (symbolic) codes and scale: an arbitrary valid pre-state"""
     from optimum.quanto.tensor import QBitsTensor, QBytesTensor
 
@@ -39,6 +39,11 @@ def make_state(kind, dt, m=None, name="q", seed=0, layout="contiguous", scale_li
             data = data.transpose(0, -1).contiguous().transpose(0, -1)
         sshape = () if axis is None else tuple(shape[d] if d == axis % len(shape) else 1 for d in range(len(shape)))
         scale = scale_like if scale_like is not None else (torch.rand(sshape, generator=g) * 0.05 + 0.01).to(dt)
+        if override:
+            if "data" in override:
+                data = override["data"].to(data.dtype).reshape(data.shape)
+            if "scale" in override and scale_like is None:
+                scale = override["scale"].to(dt).reshape(sshape)
         sym = {}
         if m is not None:
             sym["data"] = m.symbolic(data, f"{name}.c")
@@ -151,6 +156,11 @@ def catalogue():
         # pass-through list (qfallback / composite decompositions)
         Op("add-plain", None, lambda q, o: q + o, ["pt8", "ax0", "bits4"], "float", "plain"),
         Op("add-quantized", None, lambda q, o: q + o, ["pt8"], "float", "diff-scale"),
+        Op("add-rescaled-alias", None, lambda q, o: q + (q * 0.5), ["pt8", "ax0"], "rescale"),
+        Op("sub-rescaled-alias", None, lambda q, o: (q / 4) - q, ["pt8"], "rescale"),
+        Op("maximum-rescaled-alias", None, lambda q, o: torch.maximum(q, q * 2.0), ["pt8"], "rescale"),
+        Op("cat-rescaled-alias", a.cat, lambda q, o: torch.cat([q, q / 4]), ["pt8"], "rescale"),
+        Op("stack-rescaled-alias", a.stack, lambda q, o: torch.stack([q, q * 0.5, q]), ["pt8"], "rescale"),
         Op("sub-scalar", None, lambda q, o: q - 1.0, ["pt8", "ptf8"], "float"),
         Op("abs", None, lambda q, o: torch.abs(q), ["pt8", "ax0"], "float"),
         Op("sum", None, lambda q, o: q.sum(-1), ["pt8", "ax0", "bits4"], "float"),
@@ -243,7 +253,7 @@ def deq(t):
     return t.dequantize() if isinstance(t, QTensor) else t
 
 
-def second_operand(op, kind, q, dt, m=None):
+def second_operand(op, kind, q, dt, m=None, override=None):
     """the second operand for binary ops"""
     qn, axis, shape = STATES[kind]
     if op.second is None:
@@ -252,7 +262,7 @@ def second_operand(op, kind, q, dt, m=None):
         o, sym = make_state(kind, dt, m, "o", seed=5, scale_like=q._scale)
         return o, sym
     if op.second == "diff-scale":
-        o, sym = make_state(kind, dt, m, "o", seed=5)
+        o, sym = make_state(kind, dt, m, "o", seed=5, override=override)
         return o, sym
     if op.second == "plain":
         g = torch.Generator().manual_seed(9)
